@@ -341,6 +341,16 @@ func c05Successors(s c05State) []c05Succ {
 				add("unwrap @graph to a top-level array", OClone(g))
 			}
 			if a, ok := g.([]any); ok && len(a) == 1 {
+				// "@graph": [node] and "@graph": node denote the same graph
+				dd := OClone(d).(*OMap)
+				dd.Set("@graph", OClone(a[0]))
+				add("@graph value: one-element array -> the node object itself", dd)
+			} else if one, ok := g.(*OMap); ok {
+				dd := OClone(d).(*OMap)
+				dd.Set("@graph", []any{OClone(one)})
+				add("@graph value: node object -> one-element array", dd)
+			}
+			if a, ok := g.([]any); ok && len(a) == 1 {
 				if one, ok := a[0].(*OMap); ok {
 					c := OClone(one).(*OMap)
 					if ctx != nil {
@@ -551,6 +561,13 @@ func c05BaseGraph(name string) *Graph {
 	case "lexical":
 		g, _, _ := c14Build(c14Case{Mode: "full", Ranges: c14DefaultRanges(c14M5), Files: c14DefaultFiles, NodeMask: 47, PropMask: 4})
 		return g
+	case "tree":
+		// a root with everything else reachable from it: after embedding, the document has ONE top-level node, the shape
+		// in which "@graph" may hold a bare object and the document may be that node itself
+		g := &Graph{}
+		g.Add(nid(0), EX+"T").P(EX+"p2", "z").P(EX+"name", "root").P(EX+"c", Ref(EX+"c0"))
+		g.Add(EX+"c0", EX+"C", EX+"T").P(EX+"p1", "v").P(EX+"p2", "a").P(EX+"name", "kid")
+		return g
 	case "tt2":
 		return TruthTableGraph(2, true)
 	}
@@ -609,7 +626,7 @@ func c05NQuads(text string) (string, error) {
 func init() {
 	Register(Meta{
 		ID: "C05", Level: "model_checking", LongCases: true,
-		Rule:        "state = JSON-LD document text; initial states = canonical flattened serialisation of base graphs (mixed scalars/links/types, path collision graph, lexical document with source maps, truth table with decoys); transitions = 14 surface rewrites, every applicable (operator, position): prefix context, @vocab context, @base-relative ids, embed a referenced node at one reference, hoist an embedded node, @graph wrapper/top-level array/single node forms, rotate/reverse node order, reverse key order, value<->one-element array per property, @type string<->array, duplicate a value, duplicate/split a node object, fully expanded form, indentation. Depth-bounded search deduplicated on the document text; every transition is first validated to preserve the RDF dataset (sorted N-Quads by json-gold); every state is evaluated with a 7-validation observer profile (count, set, nested, inverse path, message placeholders, path expression, @type) and its (conforms, {(severity, validation, focus node, message)}) must equal the initial state's.",
+		Rule:        "state = JSON-LD document text; initial states = canonical flattened serialisation of base graphs (mixed scalars/links/types, path collision graph, lexical document with source maps, truth table with decoys, a two-node tree that embeds into a single top-level node); transitions = 15 surface rewrites, every applicable (operator, position): prefix context, @vocab context, @base-relative ids, embed a referenced node at one reference, hoist an embedded node, @graph wrapper/top-level array/single node forms, \"@graph\": [node] <-> \"@graph\": node, rotate/reverse node order, reverse key order, value<->one-element array per property, @type string<->array, duplicate a value, duplicate/split a node object, fully expanded form, indentation. Depth-bounded search deduplicated on the document text; every transition is first validated to preserve the RDF dataset (sorted N-Quads by json-gold); every state is evaluated with a 7-validation observer profile (count, set, nested, inverse path, message placeholders, path expression, @type) and its (conforms, {(severity, validation, focus node, message)}) must equal the initial state's.",
 		Assumptions: []string{"typed/language-tagged literals and remote contexts are outside the rewrite alphabet", "blank nodes do not occur in the base graphs"},
 	}, c05Gen, c05Run)
 }
@@ -619,9 +636,9 @@ func c05Gen(tier string, emit func(c05Case)) {
 		g string
 		d int
 	}
-	plan := []gd{{"mixed", 2}, {"paths", 2}, {"lexical", 2}, {"tt2", 2}}
+	plan := []gd{{"mixed", 2}, {"paths", 2}, {"lexical", 2}, {"tt2", 2}, {"tree", 3}}
 	if tier == "thorough" {
-		plan = []gd{{"mixed", 3}, {"paths", 3}, {"lexical", 2}, {"tt2", 2}}
+		plan = []gd{{"mixed", 3}, {"paths", 3}, {"lexical", 2}, {"tt2", 2}, {"tree", 4}}
 	}
 	for _, p := range plan {
 		parts := 16
